@@ -60,17 +60,69 @@ def known_f19(project, obs):
     return None
 
 
+def mixed_error_controllers(rng):
+    """Controllers whose documented routes all list @ErrorResponse codes and do NOT all return the same error type
+    (`error` and two custom error structs of the controller's package, by value or by address), in every source order."""
+    import project as P
+    out = []
+    for k in range(3):
+        p = P.gen_project(rng, {"security": False, "params": True, "custom_errors": True})
+        style = {}
+        for c in p["controllers"]:
+            for m in c["methods"]:
+                if m.get("custom_error"):
+                    style[m["errtype"]] = m["custom_error"]
+        for c in p["controllers"]:
+            kinds = ["error"] + [P.custom_error_name(n, c["pkg"]) for n in P.CUSTOM_ERRORS]
+            rng.shuffle(kinds)
+            for i, m in enumerate(c["methods"]):
+                et = kinds[i % len(kinds)]
+                m["errtype"] = et
+                m.pop("custom_error", None)
+                if et != "error":
+                    m["custom_error"] = style.setdefault(et, rng.choice(["value", "pointer"]))
+                m["hidden"] = False
+                if not m["errors"]:
+                    m["errors"] = [{"code": c2, "descr": ""} for c2 in rng.sample([400, 404, 409, 500, 503], rng.choice([1, 2]))]
+        out.append(p)
+    return out
+
+
+def slices_of_pointers(rng):
+    """By-value parameters whose ELEMENTS are pointers: `q []*string` in the query, `b []*types.Item` as the body, next
+    to `*[]T` / `[]T` controls; no explicit `required`."""
+    import project as P
+    out = []
+    for k in range(2):
+        p = P.gen_project(rng, {"security": False, "params": True, "elem_pointers": True})
+        for c in p["controllers"]:
+            for m in c["methods"]:
+                for x in m["params"]:
+                    if x["ctx"] or x["loc"] not in ("query", "body"):
+                        continue
+                    if x["loc"] == "query":
+                        x.update({"slice": True, "pointer": False, "elem_pointer": rng.random() < 0.7})
+                    else:
+                        x.update({"slice": True, "elem_pointer": rng.random() < 0.7})
+                    if rng.random() < 0.7:
+                        x["validator"] = None
+        out.append(p)
+    return out
+
+
 def extra(rng):
-    return wide_cases(rng) + dup_form_alias(rng)
+    return wide_cases(rng) + dup_form_alias(rng) + mixed_error_controllers(rng) + slices_of_pointers(rng)
 
 
 if __name__ == "__main__":
     res = speccheck.run(
         "C06", SPEC, {"security": False, "params": True, "multipkg": True, "nested_pkg": True, "reserved_headers": True,
-                     "dive_validators": True}, 30, 250,
+                     "dive_validators": True, "elem_pointers": True, "custom_errors": True}, 30, 250,
         rule="seeded abstract projects whose methods vary parameter lists (path/query/header/form/body, wire "
-             "aliases, pointer-ness, validator strings, query slices, context parameter), return shapes "
-             "(error | (T, error) | (*T, error)), @Response and @ErrorResponse (duplicates included), run "
+             "aliases, pointer-ness, validator strings, query slices, slices of pointers ([]*T) in the query and as "
+             "the body, context parameter), return shapes (E | (T, E) | (*T, E) with E = error or a custom "
+             "error struct by value or by address, mixed within one controller), @Response and @ErrorResponse "
+             "(duplicates included), run "
              "through the real CLI for 3.0.0 and 3.1.0; non-trivial = some emitted operation has a parameter "
              "or a request body",
         assumptions=["go/packages discovery and kin-openapi/libopenapi rendering are exercised, not modelled",
